@@ -205,8 +205,27 @@ def run_dynamic(spec):
                 gw = group.makegateway(f"{spec['path']}={host}//python={pyarg}//execmodel={model}{extra}")
                 probe_on = [gw]
             elif spec["path"] == "via":
-                m = group.makegateway(bare + "//id=master")
-                gw = group.makegateway(f"popen//via=master//python={py} -S -E//execmodel={model}")
+                if model == "main_thread_only":
+                    # the interpreter is named the way the *forwarder* finds it (relative to its working directory, or
+                    # by a name that only its PATH knows): the initiating side has no such file and needs none
+                    import tempfile
+
+                    box = tempfile.mkdtemp(prefix="verif-c15-box-")
+                    cleanup_dirs.append(box)
+                    os.makedirs(os.path.join(box, "pybin"))
+                    os.symlink(py, os.path.join(box, "pybin", "py-of-the-box"))
+                    if rng.random() < 0.5:
+                        m = group.makegateway(bare + f"//id=master//chdir={box}")
+                        pyarg = rng.choice(("pybin/py-of-the-box", "./pybin/py-of-the-box"))
+                    else:
+                        m = group.makegateway(bare + f"//id=master//env:PATH={box}/pybin:/usr/bin:/bin")
+                        pyarg = "py-of-the-box"
+                    label += f":python={pyarg}"
+                    res.count("proxied_workers_on_an_interpreter_only_the_forwarder_can_find")
+                    gw = group.makegateway(f"popen//via=master//python={pyarg} -S -E//execmodel={model}")
+                else:
+                    m = group.makegateway(bare + "//id=master")
+                    gw = group.makegateway(f"popen//via=master//python={py} -S -E//execmodel={model}")
                 probe_on = [m, gw]
             else:
                 if model == "main_thread_only":
@@ -269,10 +288,17 @@ def run_dynamic(spec):
                 if svgot != [("echo", "tuple"), ("echo", "dict"), ("echo", "NoneType")] or inner_said != "hello over the carried channel":
                     res.violation(f"bare-worker-callback-service-differs:{spec['path']}", f"{label}: {short(svgot, 300)} / {short(inner_said, 200)}")
                 # like any worker, an idle one runs remote code in its main thread (signal handlers, GUI toolkits ... need that)
-                try:
-                    mt = gw.remote_exec(MAIN_THREAD).receive(20)
-                except BaseException as e:  # noqa
-                    mt = f"{type(e).__name__}: {str(e)[-200:]}"
+                # (idle: the thread that ran the previous code may need a moment to become available again, so ask a few times)
+                for attempt in range(6):
+                    try:
+                        mtch = gw.remote_exec(MAIN_THREAD)
+                        mt = mtch.receive(20)
+                        mtch.waitclose(20)
+                    except BaseException as e:  # noqa
+                        mt = f"{type(e).__name__}: {str(e)[-200:]}"
+                    if mt == (True, "ok"):
+                        break
+                    time.sleep(0.3)
                 res.count("main_thread_probes_on_bare_workers")
                 if mt != (True, "ok"):
                     res.violation(f"bare-worker-runs-code-outside-main-thread:{spec['path']}", f"{label}: (in main thread, signal.signal) = {short(mt, 200)}")
